@@ -9,6 +9,8 @@ import Drv.DramMon
 import Drv.Phy
 import Drv.PortMon
 import Drv.Dma
+import Drv.RateConv
+import Drv.Injector
 open DrvUtil
 
 def main (args : List String) : IO UInt32 := do
@@ -21,6 +23,9 @@ def main (args : List String) : IO UInt32 := do
   | ["c20exp5"] => mapLines i o drvC20exp5; return 0
   | ["c20path4"] => foldLines i o none drvC20path4; return 0
   | ["c20stream4"] => foldLines i o none drvC20stream4; return 0
+  | ["injector"] => foldLines i o none drvInjector; return 0
+  | ["ratemon"] => foldLines i o none drvRateMon; return 0
+  | ["rateconv"] => foldLines i o none drvRateConv; return 0
   | ["dmar"] => foldLines i o none drvDmaR; return 0
   | ["dmaw"] => foldLines i o none drvDmaW; return 0
   | ["dmamon"] => foldLines i o none drvDmaMon; return 0
